@@ -18,7 +18,7 @@ import ast
 from ..core import walk_own, norm, is_self_attr, parent_map, AnalysisError
 from ..report import Ob, Floor
 from ..rules import plumb, twin, loops, gens, pure, prio
-from ..abseval import Evaluator, Opaque
+from ..abseval import Evaluator, Raised, Opaque
 from .. import exceptions
 from .c18 import writer_obligations
 from .c11 import triples, pred_local, SHACL, SH
@@ -26,19 +26,58 @@ from .c11 import triples, pred_local, SHACL, SH
 INIT = "shexer.shaper:Shaper.__init__"
 
 
+def cascade_removal_table(ctx, clause):
+    """ClassShexer._clean_empty_shapes, interpreted on a cascade: C -> A, A -> B (A's only constraint), B has no constraint,
+    D -> B and D -> C.  B goes; A, emptied by that, goes in the next round; no surviving shape keeps a constraint that points
+    to a removed one (neither C -> A nor D -> B); C and D stay.  Both strategies (the direct+inverse one also with an inverse
+    constraint pointing to the removed shape)."""
+    from ..abseval import AbsObj
+    p = ctx.p
+    obs = []
+    f = p.func("shexer.core.shexing.class_shexer:ClassShexer._clean_empty_shapes")
+    for sname in ("DirectShexingStrategy", "DirectAndInverseShexingStrategy"):
+        ev = Evaluator(ctx, max_depth=16)
+        ev.concrete_classes = {"ClassShexer", "DirectShexingStrategy", "DirectAndInverseShexingStrategy", "Shape", "Statement"}
+        shape_cls, st_cls = p.find_class("Shape"), p.find_class("Statement")
+
+        def st(t, inv=False):
+            init = st_cls.find_method("__init__")
+            kws = {"st_property": "http://e/p", "st_type": t, "cardinality": 1, "n_occurences": 1, "probability": 1.0, "is_inverse": inv}
+            return ev.new(st_cls, **{k: v for k, v in kws.items() if k in init.params})
+
+        def shape(name, sts):
+            return ev.new(shape_cls, name=name, class_uri="http://e/" + name, statements=sts, n_instances=1)
+        two = sname == "DirectAndInverseShexingStrategy"
+        shapes = [shape("%<C>", [st("%<A>"), st("IRI")] + ([st("%<B>", True)] if two else [])), shape("%<A>", [st("%<B>")]),
+                  shape("%<B>", []), shape("%<D>", [st("%<B>"), st("%<C>")])]
+        cs = AbsObj(p.find_class("ClassShexer"))
+        strat = AbsObj(p.find_class(sname))
+        strat.fields = {"_class_shexer": cs}
+        cs.fields = {"_shapes_list": shapes, "_remove_empty_shapes": True, "_strategy": strat, "_original_target_nodes": None}
+        try:
+            ev.invoke(cs, "_clean_empty_shapes", [], {}, 0)
+            got = []
+            for s_ in cs.fields["_shapes_list"]:
+                got.append((ev.getattr_obj(s_, "name", 0), sorted(ev.getattr_obj(x, "st_type", 0) for x in ev.getattr_obj(s_, "statements", 0))))
+            got = sorted(got)
+        except Raised as r:
+            got = "raises " + r.exc
+        want = [("%<C>", ["IRI"]), ("%<D>", ["%<C>"])]
+        ok = got == want
+        left = [] if not isinstance(got, list) else [(n, t) for n, ts in got for t in ts if t.startswith("%<") and t not in [g[0] for g in got]]
+        obs.append(Ob(clause, "R-TABLE", "R-TABLE|removal-cascade|%s" % sname, f.loc(), ok,
+                      "cascade C->A->B(empty), D->B, D->C with %s: B and A are removed, no constraint points to a removed shape" % sname if ok else
+                      "cascade C->A->B(empty), D->B, D->C with %s: expected %s, the cleaning leaves %s%s" % (
+                          sname, want, got, " - dangling reference(s) %s" % left if left else "")))
+    return obs
+
+
 def pairing(ctx, clause):
     p = ctx.p
     obs = []
-    it = p.func("shexer.core.shexing.class_shexer:ClassShexer._iteration_remove_empty_shapes")
-    calls = [norm(s.value.func) for s in it.node.body if isinstance(s, ast.Expr) and isinstance(s.value, ast.Call)]
-    ok = calls == ["self._remove_shapes_without_statements", "self._remove_statements_to_gone_shapes"]
-    obs.append(Ob(clause, "R-ORDER", "R-ORDER|drop-shape-then-refs|ClassShexer._iteration_remove_empty_shapes", it.loc(), ok,
-                  "each iteration drops the empty shapes and then the statements pointing to them" if ok else "iteration is %s" % calls))
-    loop = p.func("shexer.core.shexing.class_shexer:ClassShexer._clean_empty_shapes")
-    whiles = [x for x in walk_own(loop.node) if isinstance(x, ast.While)]
-    ok = len(whiles) == 1 and "_iteration_remove_empty_shapes" in norm(whiles[0]) and "_detect_shapes_to_remove" in norm(whiles[0])
-    obs.append(Ob(clause, "R-ORDER", "R-ORDER|removal-fixpoint|ClassShexer._clean_empty_shapes", loop.loc(), ok,
-                  "removal is iterated until no shape is empty (a shape emptied by a removed reference is removed too)"))
+    # order of the two removal steps and iteration to the fixpoint: decided on a cascade (interpreted), whatever the helpers
+    # are called and wherever their bodies sit
+    obs += ctx.attempt(cascade_removal_table, ctx, clause, default=[])
     # every live shexing strategy removes references in every direction it produces
     for cname, wants in (("DirectShexingStrategy", ["direct_statements"]),
                          ("DirectAndInverseShexingStrategy", ["direct_statements", "inverse_statements"])):
@@ -105,6 +144,9 @@ def guarded_prefix_insertion(ctx, clause):
             ok, why = False, "the stored prefix `%s` is not tested against the prefixes already in use" % norm(v)[:40]
             if isinstance(v, ast.Call) and isinstance(v.func, ast.Name) and v.func.id == "find_adequate_prefix_for_shapes_namespaces":
                 ok, why = _finder_is_guarded(ctx)
+            elif isinstance(v, ast.Name) and v.id in f.params and f.cls is not None and f.cls.name == "ShaclSerializer" \
+                    and f.cls.find_method("_add_shacl_namespace_if_needed") is not None:
+                ok, why = _shacl_prefix_table(ctx)
             elif isinstance(v, ast.Name) and v.id in f.params:
                 sites = [cs for cs in r.callers_of.get(f.qual, []) if ctx.reachable(cs.func)]
                 ok = bool(sites) and all(_arg_guarded(cs, f, v.id) for cs in sites)
@@ -122,6 +164,36 @@ def guarded_prefix_insertion(ctx, clause):
                           why if ok else "%s: two namespaces can end up under one prefix (non-functional prefix map)" % why,
                           note=not ctx.reachable(f)))
     return obs, n
+
+
+def _shacl_prefix_table(ctx):
+    """The prefix the SHACL serialiser gives the SHACL namespace, interpreted for every subset of the default prefixes (and of
+    the first numbered fallbacks) already in use: it is never one of the prefixes in use, and a dictionary that already has the
+    SHACL namespace is left alone."""
+    import itertools
+    p = ctx.p
+    f = p.method("ShaclSerializer", "_add_shacl_namespace_if_needed")
+    mod = "shexer.io.shacl.formater.shacl_serializer"
+    sh = p.const(mod, "_SHACL_NAMESPACE")
+    pri = list(p.const(mod, "_SHACL_PRIORITY_PREFIXES"))
+    rows = 0
+    for r_ in range(len(pri) + 1):
+        for taken in itertools.combinations(pri, r_):
+            for extra in ((), (pri[0] + "1",), (pri[0] + "1", pri[0] + "2")):
+                d = {"http://ns%d/" % i: t for i, t in enumerate(taken + extra)}
+                ev = Evaluator(ctx)
+                outs = ev.outcomes(f, {}, {"self._namespaces_dict": dict(d), "self._g_shapes": Opaque("g")})
+                rows += 1
+                fin = ev.finals[0][1]["self._namespaces_dict"] if len(outs) == 1 and outs[0][0] == "return" else None
+                got = fin.get(sh) if isinstance(fin, dict) else None
+                if not isinstance(got, str) or got in d.values() or {k: v for k, v in fin.items() if k != sh} != d:
+                    return False, "with the prefixes %s in use the SHACL namespace gets %r (outcomes %s)" % (sorted(d.values()), got, outs)
+    d = {sh: "mine", "http://x/": "sh"}
+    ev = Evaluator(ctx)
+    outs = ev.outcomes(f, {}, {"self._namespaces_dict": dict(d), "self._g_shapes": Opaque("g")})
+    if not (len(outs) == 1 and outs[0][0] == "return" and ev.finals[0][1]["self._namespaces_dict"] == d):
+        return False, "a dictionary that already declares the SHACL namespace is changed: %s" % (outs,)
+    return True, "decision table of _add_shacl_namespace_if_needed (%d rows): the chosen prefix is never one in use" % (rows + 1)
 
 
 def _finder_is_guarded(ctx):
